@@ -1,3 +1,399 @@
+//! In-flight download table: real `ckb_sync::InflightBlocks` (clock = faketime)
+//! vs the partial map block => (peer, since).
 use crate::*;
-pub fn run(_cx: &mut Ctx) {}
-pub fn replay(_case: &Value, _viol: &mut Vec<Violation>) {}
+use ckb_network::PeerIndex;
+use ckb_sync::InflightBlocks;
+use ckb_types::BlockNumberAndHash;
+use std::collections::{BTreeMap, BTreeSet};
+
+pub type Key = (u64, u64); // block number, hash id
+
+#[derive(Clone, Debug, PartialEq, Eq)]
+pub enum Op {
+    Insert(u64, u64, Key), // now, peer, block
+    RemovePeer(u64),
+    RemoveBlock(u64, Key),
+    MarkSlow(u64, u64), // now, tip
+    Prune(u64, u64),
+    SetProtect(u64),
+}
+
+fn bnh(k: &Key) -> BlockNumberAndHash {
+    BlockNumberAndHash::new(k.0, crate::orphan::hash_of(k.1))
+}
+fn key_of(b: &BlockNumberAndHash) -> Key {
+    (b.number(), crate::orphan::id_of(&b.hash()))
+}
+fn key_coq(k: &Key) -> String {
+    format!("({}, {})", coq_n(k.0 as u128), coq_n(k.1 as u128))
+}
+fn op_coq(o: &Op) -> String {
+    match o {
+        Op::Insert(t, p, b) => format!("IInsert {} {} {}", coq_n(*t as u128), coq_n(*p as u128), key_coq(b)),
+        Op::RemovePeer(p) => format!("IRemoveByPeer {}", coq_n(*p as u128)),
+        Op::RemoveBlock(t, b) => format!("IRemoveByBlock {} {}", coq_n(*t as u128), key_coq(b)),
+        Op::MarkSlow(t, tip) => format!("IMarkSlow {} {}", coq_n(*t as u128), coq_n(*tip as u128)),
+        Op::Prune(t, tip) => format!("IPrune {} {}", coq_n(*t as u128), coq_n(*tip as u128)),
+        Op::SetProtect(n) => format!("ISetProtect {}", coq_n(*n as u128)),
+    }
+}
+fn op_json(o: &Op) -> Value {
+    match o {
+        Op::Insert(t, p, b) => json!(["insert", t, p, b.0, b.1]),
+        Op::RemovePeer(p) => json!(["remove_by_peer", p]),
+        Op::RemoveBlock(t, b) => json!(["remove_by_block", t, b.0, b.1]),
+        Op::MarkSlow(t, tip) => json!(["mark_slow_block", t, tip]),
+        Op::Prune(t, tip) => json!(["prune", t, tip]),
+        Op::SetProtect(n) => json!(["set_protect_num", n]),
+    }
+}
+fn op_parse(v: &Value) -> Op {
+    let a = v.as_array().unwrap();
+    let n = |i: usize| a[i].as_u64().unwrap();
+    match a[0].as_str().unwrap() {
+        "insert" => Op::Insert(n(1), n(2), (n(3), n(4))),
+        "remove_by_peer" => Op::RemovePeer(n(1)),
+        "remove_by_block" => Op::RemoveBlock(n(1), (n(2), n(3))),
+        "mark_slow_block" => Op::MarkSlow(n(1), n(2)),
+        "prune" => Op::Prune(n(1), n(2)),
+        _ => Op::SetProtect(n(1)),
+    }
+}
+
+#[derive(Clone, Debug)]
+pub enum Ret {
+    Bool(bool),
+    Count(usize),
+    Peers(Vec<u64>),
+    Unit,
+}
+#[derive(Clone, Debug)]
+pub struct Obs {
+    ret: Ret,
+    scheds: Vec<(u64, u64, Vec<Key>)>,
+    states: Vec<(Key, u64, u64)>,
+    trace: Vec<(Key, u64)>,
+    restart: u64,
+}
+fn obs_coq(o: &Obs) -> String {
+    let ret = match &o.ret {
+        Ret::Bool(b) => format!("(RBool {})", coq_bool(*b)),
+        Ret::Count(n) => format!("(RCount {})", coq_nat(*n as u64)),
+        Ret::Peers(l) => format!("(RPeers {})", coq_list(l, |x| coq_n(*x as u128))),
+        Ret::Unit => "RUnit".into(),
+    };
+    format!(
+        "mkIObs {} {} {} {} {}",
+        ret,
+        coq_list(&o.scheds, |(p, t, h)| format!("({}, {}, {})", coq_n(*p as u128), coq_n(*t as u128), coq_list(h, key_coq))),
+        coq_list(&o.states, |(k, p, t)| format!("({}, {}, {})", key_coq(k), coq_n(*p as u128), coq_n(*t as u128))),
+        coq_list(&o.trace, |(k, t)| format!("({}, {})", key_coq(k), coq_n(*t as u128))),
+        coq_n(o.restart as u128)
+    )
+}
+fn obs_json(o: &Obs) -> Value {
+    json!({"ret": format!("{:?}", o.ret), "schedulers": o.scheds, "states": o.states, "trace": o.trace, "restart_number": o.restart})
+}
+
+fn observe(t: &InflightBlocks, ret: Ret) -> Obs {
+    let d = t.verif_dump();
+    let mut scheds: Vec<(u64, u64, Vec<Key>)> = d
+        .schedulers
+        .iter()
+        .map(|(p, tc, hs)| {
+            let mut h: Vec<Key> = hs.iter().map(key_of).collect();
+            h.sort();
+            (p.value() as u64, *tc as u64, h)
+        })
+        .collect();
+    scheds.sort();
+    let states: Vec<(Key, u64, u64)> = d.states.iter().map(|(b, p, ts)| (key_of(b), p.value() as u64, *ts)).collect();
+    let mut trace: Vec<(Key, u64)> = d.trace.iter().map(|(b, t)| (key_of(b), *t)).collect();
+    trace.sort();
+    Obs { ret, scheds, states, trace, restart: d.restart_number }
+}
+
+pub const F5_SIGNATURE: &str = "inflight-prune-evicts-peer-keeps-its-requests";
+
+pub fn run_ops(ops: &[Op], viol: &mut Vec<Violation>, ctx: &Value) -> Vec<Obs> {
+    let clock = ckb_systemtime::faketime();
+    clock.set_faketime(0);
+    let mut t = InflightBlocks::default();
+    let mut spec: BTreeMap<Key, (u64, u64)> = BTreeMap::new();
+    let mut out: Vec<Obs> = Vec::new();
+    let mut push = |what: String, step: usize, extra: Value, sig: Option<&str>| {
+        if viol.len() < 200 {
+            viol.push(Violation { what, detail: json!({"case": ctx, "step": step, "info": extra}), signature: sig.map(|s| s.to_string()) });
+        }
+    };
+    for (step, op) in ops.iter().enumerate() {
+        let pre = observe(&t, Ret::Unit);
+        let low = t.division_point().2;
+        let ret = match op {
+            Op::Insert(now, p, b) => {
+                clock.set_faketime(*now);
+                Ret::Bool(t.insert(PeerIndex::new(*p as usize), bnh(b)))
+            }
+            Op::RemovePeer(p) => Ret::Count(t.remove_by_peer(PeerIndex::new(*p as usize))),
+            Op::RemoveBlock(now, b) => {
+                clock.set_faketime(*now);
+                Ret::Bool(t.remove_by_block(bnh(b)))
+            }
+            Op::MarkSlow(now, tip) => {
+                clock.set_faketime(*now);
+                t.mark_slow_block(*tip);
+                Ret::Unit
+            }
+            Op::Prune(now, tip) => {
+                clock.set_faketime(*now);
+                let mut l: Vec<u64> = t.prune(*tip).iter().map(|p| p.value() as u64).collect();
+                l.sort();
+                Ret::Peers(l)
+            }
+            Op::SetProtect(n) => {
+                t.verif_set_protect_num(*n as usize);
+                Ret::Unit
+            }
+        };
+        let o = observe(&t, ret.clone());
+        // ---- release / assignment exactness against the partial map ------------
+        match (op, &ret) {
+            (Op::Insert(now, p, b), Ret::Bool(r)) => {
+                if *r != !spec.contains_key(b) {
+                    push("insert must succeed exactly when the block is not in flight".into(), step, obs_json(&o), None);
+                }
+                if !spec.contains_key(b) {
+                    spec.insert(*b, (*p, *now));
+                }
+            }
+            (Op::RemoveBlock(_, b), Ret::Bool(r)) => {
+                if *r != spec.contains_key(b) {
+                    push("remove_by_block must report exactly whether the block was in flight".into(), step, obs_json(&o), None);
+                }
+                spec.remove(b);
+            }
+            (Op::RemovePeer(p), Ret::Count(c)) => {
+                let owned = spec.values().filter(|v| v.0 == *p).count();
+                if *c != owned {
+                    push("remove_by_peer does not release exactly the requests of the leaving peer".into(), step,
+                         json!({"released": c, "owned": owned, "after": obs_json(&o)}), None);
+                }
+                spec.retain(|_, v| v.0 != *p);
+            }
+            (Op::Prune(now, tip), Ret::Peers(gone)) => {
+                let t1: BTreeSet<Key> = pre.states.iter().filter(|(k, _, ts)| k.0 <= tip + 20 && ts + 30_000 < *now).map(|x| x.0).collect();
+                let t2: BTreeSet<Key> = pre.states.iter().filter(|(_, p, _)| gone.contains(p)).map(|x| x.0).collect();
+                let t3: BTreeSet<Key> = pre.trace.iter().filter(|(k, m)| !t1.contains(k) && !t2.contains(k) && *now > low + m && spec.contains_key(k)).map(|x| x.0).collect();
+                let post: BTreeSet<Key> = o.states.iter().map(|x| x.0).collect();
+                let want: BTreeSet<Key> = spec.keys().filter(|k| !t1.contains(k) && !t2.contains(k) && !t3.contains(k)).cloned().collect();
+                if post != want {
+                    let only_evicted = post.iter().all(|k| want.contains(k) || t2.contains(k)) && want.iter().all(|k| post.contains(k));
+                    if only_evicted {
+                        push("prune evicts a peer but keeps its fresh requests in flight (nobody can be asked for these blocks until they time out)".into(),
+                             step, json!({"evicted": gone, "still_in_flight": post.difference(&want).collect::<Vec<_>>(), "after": obs_json(&o)}), Some(F5_SIGNATURE));
+                    } else {
+                        push("prune does not release exactly the timed-out / restarted / evicted requests".into(), step,
+                             json!({"expected_in_flight": want, "after": obs_json(&o)}), None);
+                    }
+                }
+                spec.retain(|k, _| post.contains(k));
+            }
+            _ => {}
+        }
+        let got: Vec<(Key, u64, u64)> = o.states.clone();
+        let want: Vec<(Key, u64, u64)> = spec.iter().map(|(k, v)| (*k, v.0, v.1)).collect();
+        if got != want {
+            push("the in-flight states are not the partial map block => (peer, since) the operations define".into(), step,
+                 json!({"expected": want, "after": obs_json(&o)}), None);
+            spec = got.iter().map(|(k, p, ts)| (*k, (*p, *ts))).collect();
+        }
+        // ---- invariants ------------------------------------------------------------
+        let mut listed: BTreeMap<Key, u64> = BTreeMap::new();
+        for (p, _, hs) in &o.scheds {
+            for h in hs {
+                if let Some(q) = listed.insert(*h, *p) {
+                    push("a block is assigned to two peers at once".into(), step, json!({"block": h, "peers": [q, p]}), None);
+                }
+                match spec.get(h) {
+                    Some((owner, _)) if owner == p => {}
+                    other => push("a block listed for a peer is not in flight from exactly that peer".into(), step,
+                                  json!({"block": h, "listed_for": p, "state": other, "after": obs_json(&o)}), None),
+                }
+            }
+            if t.peer_inflight_count(PeerIndex::new(*p as usize)) != hs.len() {
+                push("peer_inflight_count disagrees with the listed blocks".into(), step, json!({"peer": p}), None);
+            }
+        }
+        for (k, (p, _)) in &spec {
+            if listed.get(k) != Some(p) {
+                push("a block in flight from a peer is not listed for that peer (remove_by_peer cannot release it)".into(), step,
+                     json!({"block": k, "owner": p, "after": obs_json(&o)}), Some(F5_SIGNATURE));
+            }
+        }
+        if t.total_inflight_count() != spec.len() {
+            push("total_inflight_count is not the number of blocks in flight".into(), step, json!({"after": obs_json(&o)}), None);
+        }
+        out.push(o);
+    }
+    drop(clock);
+    out
+}
+
+fn emit(cx: &mut Ctx, ops: &[Op], to_coq: bool, stream: &str) {
+    let ctx = json!({"structure": "inflight", "stream": stream, "ops": ops.iter().map(op_json).collect::<Vec<_>>()});
+    let mut v = std::mem::take(&mut cx.viol);
+    let obs = run_ops(ops, &mut v, &ctx);
+    cx.viol = v;
+    cx.evaluations += 1;
+    if ops.iter().filter(|o| !matches!(o, Op::SetProtect(_))).count() >= 2 {
+        cx.distinct += 1;
+    }
+    for o in &obs {
+        if let Ret::Peers(l) = &o.ret {
+            if !l.is_empty() {
+                cx.count("inflight_prunes_evicting_a_peer");
+            }
+        }
+    }
+    if to_coq {
+        let mut d = ctx.clone();
+        d["observed"] = json!(obs.iter().map(obs_json).collect::<Vec<_>>());
+        if cx.samples.len() < 2 {
+            cx.samples.push(d.clone());
+        }
+        cx.case(G_INFLIGHT, format!("mkICase {} {}", coq_list(ops, op_coq), coq_list(&obs, obs_coq)), d);
+        cx.count("inflight_coq_cases");
+    }
+}
+
+/// the F5 witness: three stale and two fresh requests of peer 1, one prune
+pub fn f5_witness() -> Vec<Op> {
+    vec![
+        Op::SetProtect(0),
+        Op::Insert(0, 1, (1, 1)),
+        Op::Insert(0, 1, (2, 2)),
+        Op::Insert(0, 1, (3, 3)),
+        Op::Insert(30_001, 1, (4, 4)),
+        Op::Insert(30_001, 1, (5, 5)),
+        Op::Insert(30_001, 2, (6, 6)),
+        Op::Prune(30_001, 0),
+        Op::RemovePeer(1),
+        Op::Insert(30_002, 3, (4, 4)),
+    ]
+}
+
+pub fn run(cx: &mut Ctx) {
+    emit(cx, &f5_witness(), true, "corpus-F5");
+    // ---- bounded-exhaustive: 3 blocks x 2 peers, every sequence up to length L;
+    //      a "tick" moves the clock past the download timeout
+    let blocks: [Key; 3] = [(1, 1), (2, 2), (30, 3)];
+    #[derive(Clone, Copy)]
+    enum A {
+        Ins(u64, usize),
+        RmP(u64),
+        RmB(usize),
+        Prune,
+        Mark,
+        Tick,
+    }
+    let mut alphabet: Vec<A> = Vec::new();
+    for p in [1u64, 2] {
+        for b in 0..3 {
+            alphabet.push(A::Ins(p, b));
+        }
+        alphabet.push(A::RmP(p));
+    }
+    for b in 0..3 {
+        alphabet.push(A::RmB(b));
+    }
+    alphabet.push(A::Prune);
+    alphabet.push(A::Mark);
+    alphabet.push(A::Tick);
+    let k = alphabet.len() as u64;
+    let len_max = if cx.thorough { 6 } else { 5 };
+    let mut n = 0u64;
+    for len in 1..=len_max {
+        for code in 0..k.pow(len) {
+            let mut c = code;
+            let mut now = 1000u64;
+            let mut ops = vec![Op::SetProtect(0)];
+            let mut last_tick = false;
+            for _ in 0..len {
+                let a = alphabet[(c % k) as usize];
+                c /= k;
+                last_tick = false;
+                match a {
+                    A::Ins(p, b) => ops.push(Op::Insert(now, p, blocks[b])),
+                    A::RmP(p) => ops.push(Op::RemovePeer(p)),
+                    A::RmB(b) => ops.push(Op::RemoveBlock(now + 700, blocks[b])),
+                    A::Prune => ops.push(Op::Prune(now, 0)),
+                    A::Mark => ops.push(Op::MarkSlow(now, 1)),
+                    A::Tick => {
+                        now += 30_001;
+                        last_tick = true;
+                    }
+                }
+            }
+            if last_tick || (len > 1 && !matches!(ops[1], Op::Insert(..))) {
+                continue; // covered by a shorter sequence
+            }
+            n += 1;
+            let to_coq = len == len_max && n % (if cx.thorough { 9000 } else { 700 }) == 0;
+            emit(cx, &ops, to_coq, "exhaustive-3x2");
+            cx.count("inflight_seq_exhaustive");
+        }
+    }
+    // ---- random long sequences: 7 blocks x 4 peers, punishment on and off, marks and restarts
+    let n_rand = if cx.thorough { 6000 } else { 500 };
+    for i in 0..n_rand {
+        let nb = cx.rng.range(4, 7);
+        let blocks: Vec<Key> = (0..nb).map(|j| (if cx.rng.chance(1, 5) { 25 + j } else { 1 + j / 2 }, j + 1)).collect();
+        let np = cx.rng.range(2, 4);
+        let mut now = 500u64;
+        let mut ops = Vec::new();
+        if i % 3 != 0 {
+            ops.push(Op::SetProtect(*cx.rng.pick(&[0u64, 1, 2])));
+        }
+        let nops = cx.rng.range(12, 60);
+        for _ in 0..nops {
+            now += *cx.rng.pick(&[0u64, 1, 400, 1100, 1300, 1600, 15_000, 30_000, 30_001]);
+            let r = cx.rng.below(100);
+            let b = *cx.rng.pick(&blocks);
+            let p = cx.rng.range(1, np);
+            ops.push(if r < 45 {
+                Op::Insert(now, p, b)
+            } else if r < 62 {
+                Op::RemoveBlock(now, b)
+            } else if r < 70 {
+                Op::RemovePeer(p)
+            } else if r < 88 {
+                Op::Prune(now, *cx.rng.pick(&[0u64, 1, 4, 5, 6, 30]))
+            } else {
+                Op::MarkSlow(now, *cx.rng.pick(&[0u64, 1, 2, 24, 30]))
+            });
+        }
+        emit(cx, &ops, true, "random");
+        cx.count("inflight_seq_random");
+    }
+    // ---- one long run through two TimeAnalyzer windows (512 samples each)
+    if cx.thorough || true {
+        let mut ops = vec![Op::SetProtect(0)];
+        let mut now = 0u64;
+        for i in 0..1100u64 {
+            let p = 1 + i % 3;
+            ops.push(Op::Insert(now, p, (1, 1)));
+            now += (i * 37) % 2600;
+            ops.push(Op::RemoveBlock(now, (1, 1)));
+        }
+        emit(cx, &ops, true, "time-analyzer-windows");
+        cx.count("inflight_seq_long");
+    }
+}
+
+pub fn replay(case: &Value, viol: &mut Vec<Violation>) {
+    let ops: Vec<Op> = case["ops"].as_array().unwrap().iter().map(op_parse).collect();
+    let obs = run_ops(&ops, viol, case);
+    if let Some(o) = obs.last() {
+        println!("last observation: {}", obs_json(o));
+    }
+}
